@@ -135,12 +135,19 @@ func eximsimExec(r *Run) {
 	config.Checkpoints = []chaincfg.Checkpoint{{Height: int32(ck), Hash: &ckHash}}
 	r.Cfg["checkpoint"] = ck
 
+	// p2p.disable_checkpoints is a setting of the sync engine; the import's newest-checkpoint check does not depend on it
+	// (wave 9, C17-m7: "respect disable_checkpoints" in validateDbConsistency)
+	noP2PCk := t.Chance(1, 3, "p2p-disable-checkpoints")
+	r.Cfg["p2p_disable_checkpoints"] = noP2PCk
 	importInto := func(dbName, file string) (*World, error) {
 		iw := &World{R: r, Dir: w.Dir, DBPath: filepath.Join(w.Dir, dbName), Sniffer: &panicSniffer{}}
 		iw.Log = w.Log
 		iw.Cfg = baseConfig(iw.DBPath)
 		iw.Cfg.Db.PreparedDb = true
 		iw.Cfg.Db.PreparedDbFilePath = file
+		if iw.Cfg.P2P != nil {
+			iw.Cfg.P2P.DisableCheckpoints = noP2PCk
+		}
 		var db interface{ Close() error }
 		var ierr error
 		pan, pv, st := guard(func() {
